@@ -4,6 +4,7 @@
 use super::machine::*;
 use super::names::{check_iter, text_entry_points};
 use super::refs::*;
+use super::reps;
 use crate::engine::*;
 use crate::{vensure, vfail};
 use arbitrary::Unstructured;
@@ -11,7 +12,10 @@ use domain::base::name::{Name, NameBuilder, RelativeName};
 
 pub const PREFIX_MAX: u64 = 256; // prefix_len 0..=256
 pub const LABEL_MAX: u64 = 65; // label_len 0..=65
-pub const OPS: u64 = 25;
+// ops 0..=24 keep their numbers (replay files are sweep indices); 25..=32
+// were added later: the name arguments of append_origin / append_name in
+// the representations that are not one flat slice, and the number labels.
+pub const OPS: u64 = 33;
 pub const PER_OP: u64 = (PREFIX_MAX + 1) * (LABEL_MAX + 1);
 
 pub fn sweep_size(_thorough: bool) -> u64 {
@@ -32,7 +36,7 @@ pub fn run_sweep(data: &[u8], ctx: &mut Ctx) -> CaseResult {
     let mut zero = Unstructured::new(&[]);
     let u = &mut zero;
     // the prefix: complete labels, or complete labels plus an open label
-    let open_k: Option<usize> = if (6..14).contains(&op) { Some(OPEN_K[((op - 6) % 4) as usize]) } else if (17..25).contains(&op) { Some(OPEN_K[((op - 17) % 4) as usize]) } else { None };
+    let open_k: Option<usize> = if (6..14).contains(&op) { Some(OPEN_K[((op - 6) % 4) as usize]) } else if (17..25).contains(&op) { Some(OPEN_K[((op - 17) % 4) as usize]) } else if op == 32 { Some(1) } else { None };
     let closed_len = match open_k {
         Some(k) => match plen.checked_sub(k + 1) {
             Some(c) => c,
@@ -108,16 +112,16 @@ pub fn run_sweep(data: &[u8], ctx: &mut Ctx) -> CaseResult {
                 return Ok(());
             }
         }
-        3 | 17..=20 => {
-            opname = if op == 3 { "append_name" } else { "append_name:open-label" };
+        3 | 17..=20 | 28 | 29 => {
+            opname = match op { 3 => "append_name", 28 => "append_name:ref-rel-slice", 29 => "append_name:chain-rel-rel", _ => "append_name:open-label" };
             let w = if n == 0 { vec![] } else { let mut w = vec![n as u8]; w.extend_from_slice(&s); w };
             if n > 63 {
                 ctx.class("sweep:n/a");
                 return Ok(());
             }
-            let rel = RelativeName::from_octets(w.clone()).map_err(|e| Violation::new("relative-from_octets:rejected-valid-name", e.to_string()))?;
             let fits = m.len() + w.len() <= 254;
-            match b.append_name(&rel) {
+            let rep = match op { 28 => 2, 29 => 3, _ => 0 };
+            match reps::with_rel(&w, rep, 0, 0, AppendName(&mut b))? {
                 Ok(()) => {
                     if !fits {
                         vfail!(if m.len() + w.len() == 255 { "append_name:name-too-long-by-one" } else { "append_name:accepted-over-limit" }, "append_name of {} octets returned Ok at len {}", w.len(), m.len());
@@ -133,17 +137,18 @@ pub fn run_sweep(data: &[u8], ctx: &mut Ctx) -> CaseResult {
                 }
             }
         }
-        4 => {
-            opname = "append_origin";
+        4 | 25 | 26 | 27 => {
+            opname = match op { 4 => "append_origin", 25 => "append_origin:chain-rel-abs", 26 => "append_origin:ref-name-slice", _ => "append_origin:parsed-compressed" };
             if n > 63 {
                 ctx.class("sweep:n/a");
                 return Ok(());
             }
             let mut w = if n == 0 { vec![] } else { let mut w = vec![n as u8]; w.extend_from_slice(&s); w };
             w.push(0);
-            let origin = Name::from_octets(w.clone()).map_err(|e| Violation::new("name-from_octets:rejected-valid-name", e.to_string()))?;
             let fits = m.len() + w.len() <= 255;
-            match b.clone().append_origin(&origin) {
+            let rep = match op { 25 => 4, 26 => 3, 27 => 6, _ => 0 };
+            // composite representations: label | root
+            match reps::with_abs(&w, rep, 0, w.len() - 1, AppendOrigin(b.clone()))? {
                 Ok(name) => {
                     if !fits {
                         vfail!(if m.len() + w.len() == 256 { "append_origin:name-too-long-by-one" } else { "append_origin:accepted-over-limit" }, "append_origin of {} octets returned Ok at len {}", w.len(), m.len());
@@ -153,6 +158,48 @@ pub fn run_sweep(data: &[u8], ctx: &mut Ctx) -> CaseResult {
                     ctx.class("sweep:append_origin:ok");
                 }
                 Err(_) => ctx.class(if fits { "sweep:append_origin:overstrict" } else { "sweep:append_origin:rejected-name" }),
+            }
+        }
+        30 | 31 | 32 => {
+            // number labels (multi-step inside the library): label_len stands
+            // for the value: dec 4*n (1, 2 or 3 digits), hex n
+            let dec = op != 31;
+            opname = match op { 30 => "append_dec_u8_label", 31 => "append_hex_digit_label", _ => "append_dec_u8_label:open-label" };
+            if !dec && n > 15 {
+                ctx.class("sweep:n/a");
+                return Ok(());
+            }
+            let v = (n * 4).min(255) as u8;
+            let (opn, digits, r) = if dec {
+                ("append_dec_u8_label", v.to_string().into_bytes(), b.append_dec_u8_label(v))
+            } else {
+                ("append_hex_digit_label", vec![b"0123456789ABCDEF"[n]], b.append_hex_digit_label(n as u8))
+            };
+            let fit = m.fit_label(digits.len());
+            match r {
+                Ok(()) if fit == Fit::Fits => {
+                    m.end_label();
+                    m.apply_content(&digits);
+                    m.end_label();
+                    same_state(opn, &b, &m, "state-differs-from-model")?;
+                    ctx.class(format!("sweep:{opn}:ok"));
+                }
+                Ok(()) => {
+                    ctx.report(Violation::new(unsound_sig(opn, &before, digits.len()), format!("{opn} ({} digits) returned Ok at len {} (open label: {:?}); limits say {fit:?}", digits.len(), before.len(), before.open.as_ref().map(|o| o.len()))))?;
+                    return Ok(());
+                }
+                Err(_) => {
+                    ctx.class(format!("sweep:{opn}:{}", if fit == Fit::Fits { "overstrict" } else { "rejected-name" }));
+                    let mut allowed = vec![before.clone()];
+                    let mut ended = before.clone();
+                    ended.end_label();
+                    for k in 0..=digits.len() {
+                        let mut a = ended.clone();
+                        a.apply_content(&digits[..k]);
+                        allowed.push(a);
+                    }
+                    resync_among(opn, &b, &mut m, &allowed, &t)?;
+                }
             }
         }
         5 => {
